@@ -14,6 +14,7 @@ CONSTANTS
   ShapeMode = 0
   ArmorHdrs = {1}
   SigBools = {TRUE, FALSE}
+  BigSel = {}
   Emit = TRUE
 SPECIFICATION LSpec
 VIEW LView
